@@ -378,6 +378,20 @@ func ClassifyDeath(stderr string, timedOut bool) (class, frame, detail string) {
 			switch {
 			case strings.Contains(st, "runtime.growslice"):
 				how = "growslice"
+				// the slice that grew must be the library's: the first frame
+				// that is not the runtime's has to be a library function (a
+				// harness slice growing in a child that is already close to
+				// the limit says nothing about the library)
+				for _, l := range strings.Split(st, "\n") {
+					l = strings.TrimSpace(l)
+					if l == "" || strings.HasPrefix(l, "goroutine ") || strings.HasPrefix(l, "runtime.") || strings.HasPrefix(l, "/") {
+						continue
+					}
+					if !strings.HasPrefix(l, "github.com/biogo/hts/") {
+						how = "growslice-in-harness"
+					}
+					break
+				}
 			case strings.Contains(st, "runtime.makeslice"):
 				how = "makeslice"
 			}
